@@ -450,7 +450,7 @@ class Interp(object):
             return {'True': True, 'False': False, 'None': None}[e.id]
         if e.id == 'Ellipsis':
             return Ellipsis
-        if e.id in ('int', 'float', 'complex', 'str', 'bytes', 'bool', 'tuple', 'list', 'dict', 'set', 'type', 'object', 'len'):
+        if e.id in ('int', 'float', 'complex', 'str', 'bytes', 'bool', 'tuple', 'list', 'dict', 'set', 'frozenset', 'type', 'object', 'len'):
             return getattr(_b, e.id)
         if e.id in ('isinstance', 'issubclass', 'hasattr', 'getattr', 'sorted', 'min', 'max', 'any', 'all', 'repr', 'ord', 'chr', 'hex', 'reversed', 'enumerate', 'zip', 'iter', 'next') and \
                 not (self.model is not None and self.module is not None and e.id in self.model.module_assigns.get(self.module, {})):
@@ -594,6 +594,26 @@ class Interp(object):
                 return m
             if v.closed:
                 raise _Raise('AttributeError:' + attr)
+            return TOP
+        if isinstance(v, Closure) and attr in ('__code__', '__name__', '__doc__', '__defaults__'):
+            fn = v.node
+            if attr == '__name__':
+                return getattr(fn, 'name', '<lambda>')
+            if attr == '__doc__':
+                return ast.get_docstring(fn, clean=False) if not isinstance(fn, ast.Lambda) else None
+            if attr == '__code__':
+                a = fn.args
+                pos = [x.arg for x in a.posonlyargs + a.args]
+                kwo = [x.arg for x in a.kwonlyargs]
+                star = ([a.vararg.arg] if a.vararg else []) + ([a.kwarg.arg] if a.kwarg else [])
+                locals_ = []
+                for n_ in ast.walk(fn):
+                    if isinstance(n_, ast.Name) and isinstance(n_.ctx, ast.Store) and n_.id not in pos + kwo + star + locals_:
+                        locals_.append(n_.id)
+                code = Obj('code', closed=True)
+                code.attrs.update(co_varnames=tuple(pos + kwo + star + locals_), co_argcount=len(pos), co_kwonlyargcount=len(kwo), co_posonlyargcount=len(a.posonlyargs),
+                                  co_name=getattr(fn, 'name', '<lambda>'))
+                return code
             return TOP
         if isinstance(v, ClassRef):
             if attr == '__name__':
@@ -824,7 +844,7 @@ class Interp(object):
         if isinstance(op, (ast.In, ast.NotIn)):
             if b is TOP:
                 return TOP
-            if isinstance(b, (list, tuple, set, dict, str, bytes)):
+            if isinstance(b, (list, tuple, set, frozenset, dict, str, bytes, type({}.keys()), type({}.values()), type({}.items()), range)):
                 if isinstance(b, (str, bytes)):
                     if a is TOP:
                         return TOP
@@ -1013,8 +1033,16 @@ class Interp(object):
                 self.trace and self.events.append(('setattr', o, target.attr, value))
         elif isinstance(target, ast.Subscript) and isinstance(target.slice, ast.Slice):
             o = self.ev(target.value, env)
-            if isinstance(o, list) and target.slice.lower is None and target.slice.upper is None and target.slice.step is None and value is not TOP:
-                o[:] = list(value)
+            if isinstance(o, list) and value is not TOP and not isinstance(value, Obj):
+                lo = self.ev(target.slice.lower, env) if target.slice.lower is not None else None
+                hi = self.ev(target.slice.upper, env) if target.slice.upper is not None else None
+                st = self.ev(target.slice.step, env) if target.slice.step is not None else None
+                if any(x is TOP or isinstance(x, Obj) for x in (lo, hi, st)):
+                    raise _Abort('assignment to an undetermined slice')
+                try:
+                    o[slice(lo, hi, st)] = list(self.iterate(value))
+                except (TypeError, ValueError) as ex:
+                    raise _Raise(type(ex).__name__)
             else:
                 raise _Abort('slice assignment')
         elif isinstance(target, ast.Subscript):
@@ -1098,7 +1126,7 @@ class Interp(object):
                 return fv.fn(self, args, kwargs)
             if isinstance(fv, tuple) and len(fv) == 3 and fv[0] == 'pymethod':
                 return self._call_pymethod(fv, args, kwargs)
-            if fv in (int, float, complex, str, bytes, bool, tuple, list, dict, set):
+            if fv in (int, float, complex, str, bytes, bool, tuple, list, dict, set, frozenset):
                 if any(a is TOP or isinstance(a, Obj) for a in args) and fv is not dict:
                     return TOP
                 if fv is dict and any(a is TOP for a in args):
@@ -1381,6 +1409,16 @@ class Interp(object):
                     break
         return cache[key]
 
+    def builtin_vars(self, args, kwargs, e, env):
+        if len(args) != 1 or args[0] is TOP:
+            return TOP
+        o = args[0]
+        if isinstance(o, Obj):
+            return {k: v for k, v in o.attrs.items() if not k.startswith('__on_')}
+        if hasattr(o, '__dict__') and type(o).__module__ in ('argparse', 'types'):
+            return dict(vars(o))          # an argparse.Namespace of the modelled command line
+        return TOP
+
     def builtin_issubclass(self, args, kwargs, e, env):
         c, k = args
         if c is TOP or k is TOP:
@@ -1427,7 +1465,7 @@ class Interp(object):
                 (a0.id == 'ast' or (self.model is not None and self.module is not None and self.model.is_ast_alias(self.module, a0.id))):
             # hasattr(ast, 'ClassName'): the node classes of this interpreter plus the compatibility classes of the package
             return hasattr(ast, name) or (self.model is not None and ('python_minifier.ast_compat.' + name) in self.model.classes)
-        if isinstance(a0, ast.Name) and a0.id not in env and a0.id in ('os', 'sys', 'io', 're', 'tokenize', 'itertools', 'functools', 'collections') and isinstance(name, str) and \
+        if isinstance(a0, ast.Name) and a0.id not in env and a0.id in ('os', 'sys', 'io', 're', 'tokenize', 'itertools', 'functools', 'collections', 'keyword', 'string', 'math') and isinstance(name, str) and \
                 (self.model is None or self.module is None or self.model.imports.get(self.module, {}).get(a0.id, a0.id) == a0.id):
             # feature test on a module of the standard library: answered for the interpreter the check runs on
             return hasattr(__import__(a0.id), name)
